@@ -331,6 +331,9 @@ def histories(draw):
 
 def run(ctx):
     ctx.given("histories", histories(), body, quick=2500, thorough=300000)
+    if ctx.thorough and ctx.shard == 0:
+        from pbt.fuzz import driver
+        driver.run_stage(ctx, "c13_histories", runs=10000, max_len=4096)
 
 
 def replay(ctx, part, case):
